@@ -544,7 +544,7 @@ pub struct GenOpts {
 
 impl Default for GenOpts {
     fn default() -> Self {
-        GenOpts { tier: 0, stmts: 8, budget: 60, depth_safe: true, deep_capture: false, big_ints: 3, avoid_scrutinee_bugs: true, avoid_void_assign: true, avoid_for_shadow: true, avoid_captured_target: true, avoid_never_value: true, try_boost: false, avoid_void_try: true, lambda_boost: false, no_unit_vars: false, nesting: false }
+        GenOpts { tier: 0, stmts: 8, budget: 60, depth_safe: true, deep_capture: true, big_ints: 3, avoid_scrutinee_bugs: false, avoid_void_assign: false, avoid_for_shadow: false, avoid_captured_target: false, avoid_never_value: false, try_boost: false, avoid_void_try: false, lambda_boost: false, no_unit_vars: false, nesting: false }
     }
 }
 
@@ -2560,38 +2560,44 @@ pub mod run {
         cur
     }
 
-    /// Shapes that hit defects being fixed in /repo (D16, D36–D41, N6) stay out of the main stream only
-    /// until the implementation treats the witness as the reference says; the outcome of each probe is
-    /// counted under `shape:*`.
+    /// Regression programs for the defects repaired in /repo (D16, D36/D37, D38, D39, D41, N6, N7, D59, D71): each must
+    /// behave as the reference says — otherwise it is a failing input (`spec_fail` with the source).  The corresponding
+    /// shapes are UNCONDITIONALLY part of the generators' main streams (nothing is gated on the outcome).
     pub fn probe_shapes(ctx: &mut vh::Ctx) -> GenOpts {
-        let fixed = |src: &str, expect: &str| {
+        let probes: [(&str, &str, &str); 10] = [
+            ("D16 deep-capture", "let k = 10\nlet f = (a: int) -> {\n  let g = (b: int) -> a + b + k\n  g(1)\n}\nprintln(f(5))\n", "16\n"),
+            ("D36 let-in-match-scrutinee", "let r = match { let t = 1\n t } {\n 1 -> 10\n _ -> 20\n}\nprintln(r)\n", "10\n"),
+            ("D37 capture-only-in-scrutinee", "let k = 1\nlet f = (a: int) -> match k {\n 1 -> a\n _ -> 0\n}\nprintln(f(5))\n", "5\n"),
+            ("D38 void-assignment", "var u = nil\nu = println(\"x\")\nprintln(\"y\")\n", "x\ny\n"),
+            ("D39 for-binder-shadowing", "let a = 5\nfor a in 3 { }\nprintln(a)\n", "5\n"),
+            ("D41 captured-assignment-target", "let arr = [1]\nlet f = (a: int) -> {\n arr[0] = a\n 0\n}\nf(5)\nprintln(arr)\n", "[ 5 ]\n"),
+            ("N6 never-typed-if-as-value", "fn g(n: int) -> int {\n  let u = if false { return 0 } else { }\n  1\n}\nprintln(g(0))\n", "1\n"),
+            ("N7 let-in-assignment-target", "let arr = [1, 2]\narr[{ let i = 1\n i }] = 5\nprintln(arr)\n", "[ 1, 5 ]\n"),
+            ("D59 compound-target-once", "let arr = [1, 2]\nvar c = 0\nfn idx() -> int {\n  println(\"i\")\n  0\n}\narr[idx()] += 4\nprintln(arr)\n", "i\n[ 5, 2 ]\n"),
+            ("D71 try-on-void-payload", "fn f(x: option<void>, n: int) -> option<int> {\n  let r = 10 + { x?\n n }\n  option.some(r)\n}\nprintln(f(option.some(nil), 3))\n", "some(13)\n"),
+        ];
+        for (name, src, expect) in probes {
             let r = vh::run_program(src);
-            r.outcome == Outcome::Done && r.out == expect
-        };
-        let d16 = fixed("let k = 10\nlet f = (a: int) -> {\n  let g = (b: int) -> a + b + k\n  g(1)\n}\nprintln(f(5))\n", "16\n");
-        let d36 = fixed("let r = match { let t = 1\n t } {\n 1 -> 10\n _ -> 20\n}\nprintln(r)\n", "10\n")
-            && fixed("let k = 1\nlet f = (a: int) -> match k {\n 1 -> a\n _ -> 0\n}\nprintln(f(5))\n", "5\n");
-        let d38 = fixed("var u = nil\nu = println(\"x\")\nprintln(\"y\")\n", "x\ny\n");
-        let d39 = fixed("let a = 5\nfor a in 3 { }\nprintln(a)\n", "5\n");
-        let d41 = fixed("let arr = [1]\nlet f = (a: int) -> {\n arr[0] = a\n 0\n}\nf(5)\nprintln(arr)\n", "[ 5 ]\n");
-        let n6 = fixed("fn g(n: int) -> int {\n  let u = if false { return 0 } else { }\n  1\n}\nprintln(g(0))\n", "1\n");
-        let d71 = fixed("fn f(x: option<void>, n: int) -> option<int> {\n  let r = 10 + { x?\n n }\n  option.some(r)\n}\nprintln(f(option.some(nil), 3))\n", "some(13)\n");
-        let onoff = |b: bool, what: &str| if b { "on".to_string() } else { format!("off({what} not fixed)") };
-        ctx.count(&format!("shape:deep-capture:{}", onoff(d16, "D16")));
-        ctx.count(&format!("shape:let/capture-in-match-scrutinee:{}", onoff(d36, "D36/D37")));
-        ctx.count(&format!("shape:void-assignment:{}", onoff(d38, "D38")));
-        ctx.count(&format!("shape:for-binder-shadowing:{}", onoff(d39, "D39")));
-        ctx.count(&format!("shape:captured-assignment-target:{}", onoff(d41, "D41")));
-        ctx.count(&format!("shape:never-typed-if-as-value:{}", onoff(n6, "N6")));
-        ctx.count(&format!("shape:try-on-void-payload:{}", onoff(d71, "D71")));
+            if r.outcome == Outcome::Done && r.out == expect {
+                ctx.count(&format!("regression:{}:ok", name.split(' ').next().unwrap_or(name)));
+            } else {
+                ctx.count(&format!("regression:{}:FAILS", name.split(' ').next().unwrap_or(name)));
+                ctx.spec_fail(format!(
+                    "regression of a repaired defect ({name}): outcome {} output {:?}, the reference gives {:?}\n{src}",
+                    r.outcome.tag(),
+                    r.out,
+                    expect
+                ));
+            }
+        }
         GenOpts {
-            avoid_void_try: !d71,
-            deep_capture: d16,
-            avoid_scrutinee_bugs: !d36,
-            avoid_void_assign: !d38,
-            avoid_for_shadow: !d39,
-            avoid_captured_target: !d41,
-            avoid_never_value: !n6,
+            avoid_void_try: false,
+            deep_capture: true,
+            avoid_scrutinee_bugs: false,
+            avoid_void_assign: false,
+            avoid_for_shadow: false,
+            avoid_captured_target: false,
+            avoid_never_value: false,
             ..Default::default()
         }
     }
